@@ -261,3 +261,30 @@ func harnessC04Chain() {
 	}
 	vCover("chained")
 }
+
+//verif:entry property=C04 tier=both bounds="option values reused: n<=3 handlers subscribed with one and the same Once() option value (optionally also one shared Async() or filter option); two publishes; every handler fires exactly once" cover="shared"
+func harnessC04SharedOptionValue() {
+	bus := New()
+	n := vInt(2, 3)
+	opts := []SubscribeOption{Once()}
+	switch vPick(3) {
+	case 1:
+		opts = append(opts, Async())
+	case 2:
+		opts = append(opts, WithFilter(func(e evA) bool { return e.N > 0 }))
+	}
+	got := make([]int, n)
+	for i := 0; i < n; i++ {
+		i := i
+		vAssert(Subscribe(bus, func(e evA) { c01Mu.Lock(); got[i]++; c01Mu.Unlock() }, opts...) == nil, "subscribe-ok")
+	}
+	for p := 0; p < 2; p++ {
+		Publish(bus, evA{N: 1 + p})
+		bus.Wait()
+		for i := 0; i < n; i++ {
+			vAssert(got[i] == 1, "once-exactly-once-when-eligible")
+		}
+		vAssert(HandlerCount[evA](bus) == 0, "once-counted-until-fired-only")
+	}
+	vCover("shared")
+}
